@@ -2,7 +2,9 @@
 
 Proof      : coq/Props/C05.v over Model/GC.v (collect() call by call) and Gen/GenNorm.v, which is REGENERATED
              from garbage_collector.py / transaction.py on every run (_normalize_path, the marker fallback,
-             _register_inflight's marker key and payload, INFLIGHT_PATH (both copies), default timeouts); the
+             _register_inflight's marker key and payload, INFLIGHT_PATH (both copies), default timeouts, and
+             append_accepts_path: the path guards Transaction.append_files applies to every file, from which
+             Proofs/GCAcceptProofs.v derives the writer-side fact "manifest entries name files under data/"); the
              control skeleton of collect / _load_inflight_protection / _marker_targets / _gc_prefix is pinned.
 Tie        : correspondence
                pystr    Python str methods                        vs Model/PyStr.v
@@ -11,14 +13,18 @@ Tie        : correspondence
                gc_run   every collection of every generated history: real Table.garbage_collect (traced
                         storage, frozen clock) vs Model/GC.v gc_run on the directory read by an independent
                         reader: outcome, exact deleted set, keep sets, storage-call trace, final key set
+               accept    real Transaction.append_files deciding on the path alone vs Gen/GenNorm.v append_accepts_path
                hinv     the store built from the real directory before every collection satisfies the invariant of
                         C05_history (hinvb: writer path forms + every retained snapshot fully present; sound by hinvb_sound)
 Oracle /   : implementation only (independent reader: json + fastavro + pyarrow; no model):
-search       random histories {append (3 path spellings), multi-op txn, delete_files, expire, delete_snapshot,
+search       random histories {append (3 path spellings), caller-built files appended from every directory of the table
+             (data/, data/sub, metadata/manifests, metadata/inflight, metadata, .locks, other, the root, <location>/data),
+             multi-op txn, delete_files, expire, delete_snapshot,
              open / commit / roll back transactions, planted orphans, collect(grace)} x table-location spellings
              (local: absolute, relative via chdir, "./x", trailing "/", "//", symlink, names d / da / data / m / metadata / ...;
              simulated table_path strings; S3: DATASHARD_S3_PREFIX x table_path through the real S3StorageBackend over an
-             in-memory client) x grace {0, 3600000, 10^12} x mtimes on both sides of the cutoff; after each collect:
+             in-memory client) x grace {0, 3600000, 10^12} x mtimes on both sides of the cutoff (of every swept AND every
+             referenced file, some beyond the 24 h marker window); after each collect:
              deleted & (reachable | registered) = {}, every retained snapshot fully re-read, old orphans gone,
              no abort on an undamaged table.  Failing histories are shrunk (ops removed one at a time).
 """
@@ -39,21 +45,27 @@ from harness.lib import coqbuild, gcs3, gcsim
 from harness.lib.coqio import Nat, to_coq
 
 LEVEL = "proof"
-THEOREMS = ["C05_norm_agree", "C05_gc_safe", "C05_gc_live", "C05_no_abort", "C05_history", "C05_append_commits", "C05_alias_never_committed"]
+THEOREMS = ["C05_norm_agree", "C05_gc_safe", "C05_gc_live", "C05_no_abort", "C05_history", "C05_append_commits", "C05_acceptance_regenerated"]
 REQ = gcsim.REQ + ["DS.Model.GCHist"]
 TIMEOUT_MS = 24 * 3600 * 1000
 
 MANIFEST_ENTRY = {
     "level_text": "C05_norm_agree (every table-location string, every key under data/ or metadata/), C05_gc_safe, C05_gc_live, "
-                  "C05_no_abort, C05_history (induction over unbounded sequential histories, collections with arbitrary faults included) and "
-                  "C05_append_commits proved in Coq, for both orders of the collector's preparatory phases, over a call-by-call "
+                  "C05_no_abort, C05_history (induction over unbounded sequential histories, collections with arbitrary faults included), "
+                  "C05_append_commits and C05_acceptance_regenerated (the path guards of append_files, regenerated, imply that a manifest "
+                  "entry names a file under data/: the writer-side hypothesis of C05_gc_safe) proved in Coq, for both orders of the "
+                  "collector's preparatory phases, over a call-by-call "
                   "model of GarbageCollector.collect whose path normalisation, marker fallback, marker naming and constants are "
                   "regenerated from the source on every run; the hand-written model is tied to the code by differential execution "
                   "of every collection of every generated history (outcome, exact deleted set, keep sets, storage-call trace); "
                   "implementation-only oracles with an independent reader search for a failing history",
-    "level_note": "trusted: Coq kernel; translator/gen_norm.py; harness/lib/gcs3.py (in-memory S3 client under the real S3StorageBackend); wf_store (writer-side path forms: data files under data/, "
+    "level_note": "trusted: Coq kernel; translator/gen_norm.py; harness/lib/gcs3.py (in-memory S3 client under the real S3StorageBackend); wf_store (writer-side path forms: data files under data/ "
+                  "-- derived from the regenerated acceptance guard of append_files, with posixpath.normpath a parameter that the history "
+                  "machine instantiates by the identity because its store has no second spelling of a key --, "
                   "lists and manifests under metadata/, marker naming) proved invariant of the model's writers and checked on every "
-                  "real directory; metadata_manager.refresh() is an input of the model (pointer / metadata damage: C10, C14); one "
+                  "real directory; the table location enters the model only as the string normalize_path receives: symlinked locations "
+                  "and S3 prefixes act through the backend's listing, which the harness exercises (real LocalStorageBackend, real "
+                  "S3StorageBackend over an in-memory client) and the model does not contain; metadata_manager.refresh() is an input of the model (pointer / metadata damage: C10, C14); one "
                   "clock value per collection; transactions younger than the 24 h marker abandonment window; S3 spellings run the real "
                   "S3StorageBackend over an in-memory client (collections only: the table is written locally and uploaded); "
                   "the harness runs the code faithfully",
@@ -65,6 +77,10 @@ GRACES = [0, 3600000, 10 ** 12]
 REAL_SPELLINGS = ["abs", "rel", "dot", "trail", "dslash", "symlink", "unicode", "d", "da", "dat", "data", "m", "me", "metadata", "datax", "t/data"]
 S3_SPELLINGS = [("", "data"), ("", "d"), ("", "da"), ("", "metadata"), ("", "m"), ("", "/data"), ("", "data/"), ("data", "t"), ("d", "ata"),
                 ("wh", "data"), ("wh/", "/data/"), ("data", ""), ("", "logs/data"), ("", "datax"), ("metadata", "manifests"), ("", "tbl")]
+# where a caller-built data file handed to append_files() lives, relative to the table root: the table's own data
+# directory (and below it), the directories the library manages itself (manifests, in-flight markers, metadata, locks), any
+# other directory, the root itself, and "<table location>/data" INSIDE the table (the legacy absolute spelling of data/<name>)
+PLACES = ["data", "data", "data", "data/sub", "metadata/manifests", "metadata/manifests", "metadata", "metadata/inflight", ".locks", "other/dir", "", "@tp/data"]
 SIM_SPELLINGS = ["sim:/data", "sim:/metadata", "sim:/", "sim:", "sim:/data/", "sim:data/", "sim:/d", "sim:s3-bucket-prefix/data"]
 
 
@@ -76,7 +92,8 @@ def gen_ops(rng: random.Random, n: int, final_grace: int) -> List[Dict[str, Any]
         if r < 0.18:
             ops.append({"op": "append", "spell": rng.choice([0, 0, 0, 1, 2, 1, 2, 3, 4, 5])})
         elif r < 0.30:
-            ops.append({"op": "append_prebuilt", "spell": rng.randrange(6), "fmt": rng.choice(["parquet", "parquet", "other"])})
+            ops.append({"op": "append_prebuilt", "spell": rng.randrange(6), "fmt": rng.choice(["parquet", "parquet", "other"]),
+                        "place": rng.choice(PLACES), "inflight_name": rng.random() < 0.5})
         elif r < 0.38:
             ops.append({"op": "multi", "appends": rng.choice([1, 2]), "delete": rng.choice([None, rng.randrange(8)])})
         elif r < 0.50:
@@ -132,6 +149,7 @@ def _spell(path: str, spell: int) -> str:
     """0..2: the canonical spellings of one file; 3..5: spellings that only a filesystem identifies with it."""
     rel = path.lstrip("/")
     d, _, name = rel.rpartition("/")
+    d = d or "."
     return ["/" + rel, rel, "//" + rel, f"{d}//{name}", f"{d}/./{name}", f"{d}/x/../{name}"][spell]
 
 
@@ -179,14 +197,20 @@ def exec_history(case: Dict[str, Any]) -> Dict[str, Any]:
                     import pyarrow as pa
                     import pyarrow.parquet as pq
                     from datashard.data_structures import DataFile, FileFormat
-                    name = f"pre_{opi}_{next(counter)}.parquet"
-                    full = os.path.join(os.path.realpath(root), "data", name)
+                    place = op.get("place", "data")
+                    if place.startswith("@tp"):
+                        place = ((override if override is not None else tp).strip("/") + place[3:]).strip("/")
+                    name = f"pre_{opi}_{next(counter)}" + (".inflight" if place == "metadata/inflight" and op.get("inflight_name") else ".parquet")
+                    rel = f"{place}/{name}" if place else name
+                    full = os.path.join(os.path.realpath(root), rel)
                     os.makedirs(os.path.dirname(full), exist_ok=True)
                     pq.write_table(pa.table({"x": pa.array([next(counter), next(counter)], pa.int64())}), full)
+                    if op.get("place", "").startswith("@tp"):
+                        _plant(root, f"data/{name}", b"PAR1 an orphan whose key an alias entry normalises to")
                     fmt = FileFormat.PARQUET if op.get("fmt", "parquet") == "parquet" else [f for f in FileFormat if f != FileFormat.PARQUET][0]
                     tx = t.new_transaction().begin()
                     try:
-                        tx.append_files([DataFile(file_path=_spell(f"data/{name}", op["spell"]), file_format=fmt, partition_values={},
+                        tx.append_files([DataFile(file_path=_spell(rel, op["spell"]), file_format=fmt, partition_values={},
                                                   record_count=2, file_size_in_bytes=os.path.getsize(full))])
                         tx.commit()
                     except Exception:
@@ -295,13 +319,16 @@ def do_collect(t: Any, reader: gcsim.IndepReader, root: str, tp_seen: str, overr
     arng = random.Random(ages_seed)
     real_root = os.path.realpath(root)
     old_keys, young_keys = set(), set()
+    reach = reader.reachable()
+    # file ages are arbitrary inputs: every file under the swept directories AND every file a retained snapshot references
+    # (wherever it lives) lands on either side of the grace cutoff, some of them beyond the marker abandonment window too
     for key in sorted(gcsim.list_tree(root)):
-        if key.startswith("data/") or key.startswith("metadata/manifests/"):
+        if key.startswith("data/") or key.startswith("metadata/manifests/") or key in reach:
             old = arng.random() < 0.6
-            ts = now - grace / 1000.0 + (-100.0 if old else 100.0)
+            ancient = old and arng.random() < 0.4
+            ts = now - grace / 1000.0 + (-100.0 if old else 100.0) - (TIMEOUT_MS / 1000.0 if ancient else 0.0)
             os.utime(os.path.join(real_root, key), (ts, ts))
             (old_keys if old else young_keys).add(key)
-    reach = reader.reachable()
     live = reader.live_protected(now, TIMEOUT_MS)
     snaps = [s.get("manifest_list") or "" for s in reader.snapshots()]
     store = gcsim.store_term(root)
@@ -569,18 +596,66 @@ def corr_norm(ctx) -> None:
     ctx.correspondence("markers+consts", len(names) + len(files) + 2, bad)
 
 
+ACCEPT_PATHS = ["data/f.parquet", "/data/f.parquet", "//data/f.parquet", "data/sub/f.parquet", "data/", "data", "/data", "", "/", "//",
+               "metadata/manifests/f.parquet", "/metadata/manifests/f.avro", "metadata/inflight/f.inflight", "/metadata/inflight/f.parquet",
+               "metadata/f.parquet", "metadata/v1.metadata.json", "metadata.version-hint.text", ".locks/f.parquet", "other/f.parquet",
+               "other/data/f.parquet", "f.parquet", "/f.parquet", "datax/f.parquet", "dat/f.parquet", "Data/f.parquet", "data//f.parquet",
+               "data/./f.parquet", "data/x/../f.parquet", "data/f.parquet/", "./data/f.parquet", "../data/f.parquet", "..", "../", "data/..",
+               "data/../metadata/manifests/f.parquet", "data/../../f", "/data/../f", "tbl/data/f.parquet", "/tmp/t/data/f.parquet",
+               "data/\u00e9.parquet", "data/a b.parquet", "data/.hidden", "data/..f", "data/f..", "data/.../f"]
+
+
+def corr_accept(ctx) -> None:
+    """Gen/GenNorm.v append_accepts_path (the path guards of append_files, regenerated) vs the REAL Transaction.append_files
+    deciding on the path alone: the file exists, is parquet, the table has no persisted schema."""
+    import posixpath
+    import datashard.transaction as txmod
+    from datashard.data_structures import DataFile, FileFormat
+    rng = ctx.rng
+    paths = list(ACCEPT_PATHS) + ["".join(rng.choice(["/", ".", "d", "data", "a", "metadata", "..", "x"]) for _ in range(rng.randint(1, 6)))
+                                 for _ in range(60 if ctx.tier == "quick" else 600)]
+    paths = sorted(set(paths))
+
+    class _FM:
+        def validate_file_exists(self, path):
+            return True
+
+    exprs, real = [], []
+    for pth in paths:
+        tx = txmod.Transaction.__new__(txmod.Transaction)
+        tx._is_active, tx._is_committed, tx._is_rolled_back, tx._operations = True, False, False, []
+        tx.file_manager = _FM()
+        tx._resolve_table_schema = lambda: None
+        try:
+            tx.append_files([DataFile(file_path=pth, file_format=FileFormat.PARQUET, partition_values={}, record_count=1, file_size_in_bytes=1)])
+            real.append(len(tx._operations) == 1)
+        except ValueError:
+            real.append(False)
+        # posixpath.normpath is a parameter of the generated predicate: its true values on the strings it can be asked about
+        table = {q: posixpath.normpath(q) for q in {pth, pth.lstrip("/"), pth.strip("/")} if q}
+        np = "(fun s => " + "".join(f"if String.eqb s {to_coq(q)} then {to_coq(v)} else " for q, v in sorted(table.items())) + '"."%string)'
+        exprs.append(f"append_accepts_path {np} {to_coq(pth)}")
+    got = coqbuild.coq_eval(REQ, exprs)
+    bad = [{"file_path": pth, "append_files_accepts": r, "generated": g} for pth, r, g in zip(paths, real, got) if r != g]
+    for pth in paths:
+        ctx.count(1, ("accept", pth))
+    ctx.stats["accept"] = {"paths": len(paths), "accepted": sum(1 for r in real if r)}
+    ctx.correspondence("accept", len(paths), bad)
+
+
 # ------------------------------------------------------------------------------------------ driver
 def run(ctx) -> None:
     ctx.rule = ("one evaluation = one real collection inside a generated history, judged by the independent oracle and compared with "
                 "the model; distinct by (location spelling, grace, #deleted, #reachable, #protected); plus exhaustive small-domain "
                 "runs of the regenerated path kernel")
     ctx.trusted_base += [
-        "translator/gen_norm.py (Python ast -> Gallina for _normalize_path, marker fallback, _register_inflight; control skeletons pinned)",
+        "translator/gen_norm.py (Python ast -> Gallina for _normalize_path, marker fallback, _register_inflight, the path guards of append_files; control skeletons pinned)",
         "Model/PyStr.v models Python str methods on UTF-8 bytes (validated by the 'pystr' correspondence)",
         "harness: harness/props/c05.py, harness/lib/gcsim.py (independent reader: json + fastavro + pyarrow; traced storage; frozen clock)",
     ]
     ctx.assumptions += [
-        "writer-side path forms (wf_store): data files under data/, manifests and lists under metadata/, markers named '<basename>.inflight' "
+        "writer-side path forms (wf_store): data files under data/ (derived from append_files' regenerated path guards: "
+        "C05_acceptance_regenerated), manifests and lists under metadata/, markers named '<basename>.inflight' "
         "with the table-relative path as payload -- proved invariant of the model's writers (C05_history), checked on every real directory",
         "transactions are younger than the marker abandonment timeout (24 h): older markers deliberately stop protecting",
         "file names are fresh (uuid4 collisions excluded)",
@@ -594,6 +669,7 @@ def run(ctx) -> None:
     try:
         corr_pystr(ctx)
         corr_norm(ctx)
+        corr_accept(ctx)
     except RuntimeError as e:
         ctx.proof_problems.append("model evaluation failed: " + str(e)[:600])
 
